@@ -107,6 +107,11 @@ def fabricate_reports(acc, ft, w, rnd, cid, seen_exec, order_ids):
                 qty_sets.append((cq, math.nan, cq - o.cum_qty))
         for lq in {0.0, float(o.leaves_qty), float(o.qty)}:
             qty_sets.append((math.nan, lq, math.nan))
+        # the sum just above the order quantity, by less than any rounding a helper might apply
+        for eps in (0.0004, 0.004, 0.04, 1e-6):
+            qty_sets.append((float(x.cum), float(o.qty) - float(x.cum) + eps, math.nan))
+            qty_sets.append((float(o.qty) + eps, 0.0, math.nan))
+            qty_sets.append((float(o.qty) / 2 + eps, float(o.qty) / 2, math.nan))
     combos = []
     for et in EXEC_TYPES:
         for st in STATUSES:
@@ -196,7 +201,7 @@ def c17_safe(o):
         return f"<repr raised {e!r}>"
 
 
-def fabricate_rejects(acc, ft, w, rnd, cid):
+def fabricate_rejects(acc, ft, w, rnd, cid, order_ids=None):
     """cancel rejects for a real request built through the helper (on a copy: the walk itself decides what is really sent)"""
     from asyncfix.protocol.common import FOrdStatus
     schema, dic = refs()
@@ -236,6 +241,21 @@ def fabricate_rejects(acc, ft, w, rnd, cid):
             except Exception as e:
                 acc.violation(f"order-raises-on-fabricated-reject:{type(e).__name__}", repr(e), wit, cid)
                 return False
+            # the OrderID stays what it was for everything the helper fabricates for this order afterwards
+            if order_ids:
+                from asyncfix.protocol.common import FExecType
+                try:
+                    m2 = ft2.fix_exec_report_msg(o2, o2.clord_id, FExecType("I"), o2.status)
+                except AssertionError:
+                    continue
+                except Exception as e:
+                    acc.violation(f"helper-raised:{type(e).__name__}:fix_exec_report_msg", f"after a processed cancel reject: {e!r}", wit, cid)
+                    return False
+                acc.oracle("orderid-stable")
+                if str(m2[37]) not in order_ids:
+                    acc.violation("order-id-not-stable:after-processed-cancel-reject", f"the order's reports carried OrderID {sorted(order_ids)}; after it processed the helper's "
+                                  f"{kind} reject (37={m.get(37, None)!r}) the next fabricated report carries {str(m2[37])!r}", wit, cid)
+                    return False
     return True
 
 
@@ -283,6 +303,9 @@ def order_walk(acc, rnd, cid):
 
         def add(self, *a):
             pass
+
+        def addmap(self, *a):
+            pass
     null = NullAcc()
     for step in range(25):
         ft.registered_orders[w.o.clord_id] = w.o
@@ -291,7 +314,7 @@ def order_walk(acc, rnd, cid):
         if str(w.o.status) != "Z":
             if not fabricate_reports(acc, ft, w, rnd, cid, seen_exec, order_ids):
                 return w
-            if not fabricate_rejects(acc, ft, w, rnd, cid):
+            if not fabricate_rejects(acc, ft, w, rnd, cid, order_ids):
                 return w
         acts = w.actions()
         if not acts:
